@@ -182,7 +182,7 @@ func (d *Driver) yield(instanceID, site string) {
 	if stallHere && len(d.plan.Sched.StallSites) > 0 {
 		stallHere = false
 		for _, x := range d.plan.Sched.StallSites {
-			if x == site {
+			if x == site || strings.HasPrefix(x, "*") && strings.HasSuffix(site, x[1:]) {
 				stallHere = true
 			}
 		}
